@@ -275,6 +275,14 @@ func deserializeIndex(src io.Reader) (systemFontsIndex, error) {
 		out = append(out, fp)
 	}
 
+	// read the stream to its end, so that the checksum of the
+	// compressed data is verified: a corrupted index must not be trusted
+	if n, err := io.Copy(io.Discard, r); err != nil {
+		return nil, fmt.Errorf("invalid index: %s", err)
+	} else if n != 0 {
+		return nil, fmt.Errorf("invalid index: %d unexpected trailing bytes", n)
+	}
+
 	return out, nil
 }
 
